@@ -17,6 +17,7 @@ import BRV.Proofs.RepoBasics
 import BRV.Proofs.RepoLookup
 import BRV.Proofs.RepoExample
 import BRV.Proofs.RepoStreamStep
+import BRV.Proofs.LinearWorld
 
 namespace BRV.Repo
 
@@ -232,5 +233,46 @@ example : checkHeader exR9 0 = .ok (0, true) ∧ checkHeader exR9 5 = .error .un
 
 /-- the genesis-only repository is well-formed (the hypotheses of the theorems above are met). -/
 example : RepoWF genesisRepo := genesisRepo_wf
+
+
+/-- **C09 in the linear world, at any length**: after ANY history of submissions that extend the tip — of
+    any length, across the automatic clean every 10000 heights, with Cleans, Saves and Loads of any depth
+    in between — `Hash(h)` is the `h`-th accepted header for every height of the chain (served from memory
+    or from the main-chain files), heights beyond the tip are refused, and `HashHeight` of every accepted
+    header is exactly its position, of every other hash unknown. -/
+theorem C09_linear_world (r0 : Repo) (c0 : List HData) (k0 m0 : Nat) (h0 : PLin r0 c0 k0 m0) (ops : List LinOp)
+    (hh : LinHist r0 ops) :
+    ∃ c : List HData,
+      tipHeight (runOps r0 ops) = (c.length : Int) - 1 ∧
+      (∀ (h : Nat) (d : HData), c[h]? = some d →
+        headerAt (runOps r0 ops) h = .ok d.hdr ∧ hashHeight (runOps r0 ops) d.hdr.id = some (h : Int)) ∧
+      (∀ h : Int, (c.length : Int) ≤ h → headerAt (runOps r0 ops) h = .error .beyondTip) ∧
+      (∀ id, (∀ d ∈ c, d.hdr.id ≠ id) → hashHeight (runOps r0 ops) id = none) := by
+  obtain ⟨c, k, m, hp⟩ := plin_history ops r0 c0 k0 m0 h0 hh
+  obtain ⟨a1, _, a3, a4, a5⟩ := plin_obs hp
+  refine ⟨c, a1, ?_, a4, ?_⟩
+  · intro h d hd
+    refine ⟨a3 h d hd, ?_⟩
+    rw [a5, (posOf_some_iff c hp.nodup d.hdr.id h).mpr ⟨d, hd, rfl⟩]; rfl
+  · intro id hne
+    rw [a5]
+    cases hpos : posOf c id with
+    | none => rfl
+    | some i =>
+      obtain ⟨d, hd, hid⟩ := (posOf_some_iff c hp.nodup id i).mp hpos
+      exact absurd hid (hne d (List.mem_of_getElem? hd))
+
+/-- non-vacuity: genesis, three headers, a Clean that prunes, a fourth header, Save, Load with depth 1, a
+    fifth header — a linear history in the sense of the theorem. -/
+def exLinOps : List LinOp :=
+  [.submit { id := 1, prev := 0, bits := 0x1d00ffff, time := 2 } true, .submit { id := 2, prev := 1, bits := 0x1d00ffff, time := 3 } true,
+   .submit { id := 3, prev := 2, bits := 0x1d00ffff, time := 4 } true, .clean 1,
+   .submit { id := 4, prev := 3, bits := 0x1d00ffff, time := 5 } true, .save,
+   .load 1 { id := 0, prev := 99, bits := 0x1d00ffff, time := 1 },
+   .submit { id := 5, prev := 4, bits := 0x1d00ffff, time := 6 } true, .clean 0]
+
+example : LinHist genesisRepo exLinOps := linHist_of_B _ _ (by decide)
+example : tipId (runOps genesisRepo exLinOps) = 5 ∧ tipHeight (runOps genesisRepo exLinOps) = 5 ∧
+    ((runOps genesisRepo exLinOps).at 0 4).isNone = true := by decide
 
 end BRV.Repo
